@@ -56,7 +56,13 @@ func (c *PContacts) More() bool {
 
 // Reset re-initializes the parsed values.
 func (c *PContacts) Reset() {
-	for i := 0; i < c.VNo(); i++ {
+	// reset also the slot of a value that was only partially parsed
+	// (Vals[N]), else its saved state would leak into the next parse
+	n := c.N + 1
+	if n > len(c.Vals) {
+		n = len(c.Vals)
+	}
+	for i := 0; i < n; i++ {
 		c.Vals[i].Reset()
 	}
 	v := c.Vals
